@@ -19,7 +19,7 @@ import numpy as np
 
 from vf.models.base import Model, short
 
-REWARD_TWINS = {"n5d": "n5s", "n5s": "n5d", "n20d": "n20s", "n20s": "n20d"}
+REWARD_TWINS = {"n5d": "n5s", "n5s": "n5d", "n20d": "n20s", "n20s": "n20d", "lat6d": "lat6s", "lat6s": "lat6d"}
 
 
 def _make(n, dense=True):
